@@ -8,7 +8,7 @@ from ..common import TypeHint, VarTuple
 from ..feature_requirement import HAS_PARAM_SPEC, HAS_TV_DEFAULT, HAS_TV_TUPLE
 from .basic_utils import create_union, is_user_defined_generic, strip_alias
 from .constants import BUILTIN_ORIGIN_TO_TYPEVARS
-from .fundamentals import get_all_type_hints
+from .fundamentals import get_all_type_hints, get_type_vars
 
 
 class ImplicitParamsGetter:
@@ -44,7 +44,7 @@ class ImplicitParamsGetter:
 
     def get_implicit_params(self, origin) -> VarTuple[TypeHint]:
         if is_user_defined_generic(origin):
-            type_vars = origin.__parameters__
+            type_vars = get_type_vars(origin)  # pydantic model keeps its parameters separately from `__parameters__`
         else:
             type_vars = BUILTIN_ORIGIN_TO_TYPEVARS.get(origin, ())
 
